@@ -121,6 +121,10 @@ def make_parser(name, lexer_fn=None, **kw):
         return OmniParser(grammar=g, decoder=OmniDecoder(grammar=g), lexer_fn=lexer_fn, **kw)
     if name == "OMNI":
         return OmniParser(lexer_fn=lexer_fn, **kw)
+    if name == "ISISx":
+        # grammar given explicitly, decoder built on its own (its grammar is ODLGrammar): what
+        # pvl.loads(s, grammar=ISISGrammar(), decoder=OmniDecoder()) builds
+        return OmniParser(grammar=ISISGrammar(), decoder=OmniDecoder(), lexer_fn=lexer_fn, **kw)
     raise KeyError(name)
 
 
